@@ -197,6 +197,7 @@ def run_property(prop, tier, seed, replay=None):
         env = base_env(pid, tier, seed)
         sseed = (seed * 1000003 + i * 7919 + abs(hash(s.name)) % 1000) % (2 ** 31 - 1) + 1 if False else (seed * 1000 + i + 1)
         env['VERIF_SEED'] = str(sseed)
+        env['VERIF_BASE_SEED'] = str(seed)
         env['VERIF_SHARD'] = str(i)
         env['VERIF_NSHARDS'] = str(n)
         env['VERIF_CASES'] = str(s.cases[tix])
